@@ -526,6 +526,12 @@ XMLFormatter::handleUnEscapedChars(const XMLCh *                  srcPtr,
          fTarget->writeChars(fTmpBuf, outBytes, this);
       }
 
+      // A transcoder that consumes nothing (e.g. the run ends in an
+      // unpaired high surrogate and it waits for the second half) would keep
+      // this loop spinning forever: the source is not transcodable.
+      if (!charsEaten)
+          ThrowXMLwithMemMgr(TranscodingException, XMLExcepts::Trans_BadSrcSeq, fMemoryManager);
+
       srcPtr += charsEaten;
       count  -= charsEaten;
    }
